@@ -740,3 +740,26 @@ fault("c11-zip-count-written-first", "C11", "R11c", (ZIP, "                for (
 fault("c11-zip-count-check-outside-guard", "C11", "R11c", (ZIP, "            with shelve.open(cache_fspath, \"r\") as db:\n                dircache = dict(db)\n            if dircache.pop(self.CACHE_COMPLETE_KEY, None) != len(dircache):\n                raise ValueError(\"incomplete cache\")\n            self.dircache = dircache\n        except Exception:\n            self.populate_cache()\n            self.save_cache()\n",
       "            with shelve.open(cache_fspath, \"r\") as db:\n                dircache = dict(db)\n        except Exception:\n            self.populate_cache()\n            self.save_cache()\n            return\n        if dircache.pop(self.CACHE_COMPLETE_KEY, None) != len(dircache):\n            raise ValueError(\"incomplete cache\")\n        self.dircache = dircache\n"))
 twin("c11-twin-zip-count-get", "C11", (ZIP, "            if dircache.pop(self.CACHE_COMPLETE_KEY, None) != len(dircache):\n", "            if dircache.pop(self.CACHE_COMPLETE_KEY, -1) != len(dircache):\n"))
+
+
+# ======================================================================= round 5 (rules added for seeded changes C01-e ... C20-e)
+fault("c02-empty-plus-field-claimed", "C02", "R02h", (GP, '        return (\n            self.gopherpstring.startswith("+")\n            or self.gopherpstring == "!"\n            or self.gopherpstring.startswith("$")\n        )',
+      '        return self.gopherpstring == "!" or self.gopherpstring[:1] in "+$"'))
+twin("c02-twin-plus-field-tuple", "C02", (GP, '        return (\n            self.gopherpstring.startswith("+")\n            or self.gopherpstring == "!"\n            or self.gopherpstring.startswith("$")\n        )',
+     '        return self.gopherpstring == "!" or self.gopherpstring.startswith(("+", "$"))'))
+fault("c03-normalise-before-decoding", "C03", "R03j", (GEM, '        self.selector = urllib.parse.unquote(selector, errors="surrogateescape")\n        self.selector = self.slashnormalize(self.selector)\n',
+      '        self.selector = urllib.parse.unquote(self.slashnormalize(selector), errors="surrogateescape")\n'))
+fault("c07-verdicts-remembered", "C07", "R07j", (DIR, "        return not re.search(ignorepatt, pattern)\n", "        key = (ignorepatt, file)\n        if key not in _verdicts:\n            _verdicts[key] = not re.search(ignorepatt, pattern)\n        return _verdicts[key]\n"),
+      (DIR, "class DirHandler(BaseHandler):", "_verdicts = {}\n\n\nclass DirHandler(BaseHandler):"))
+fault("c11-cache-through-tempfile", "C11", "R11d", (DIR, '            with self.vfs.open(self.cachename, "wb") as fp:\n', '            import tempfile\n\n            tmpfd, tmpname = tempfile.mkstemp(dir=".")\n            with self.vfs.open(self.cachename, "wb") as fp:\n'))
+fault("c12-populate-swallows-stat", "C12", "R12e", (GE, "        self.populatefromfs(selector, statval=vfs.stat(selector), vfs=vfs)\n", "        self.populatefromfs(selector, vfs=vfs)\n"))
+twin("c12-twin-populate-local-stat", "C12", (GE, "        self.populatefromfs(selector, statval=vfs.stat(selector), vfs=vfs)\n", "        statval = vfs.stat(selector)\n        self.populatefromfs(selector, statval=statval, vfs=vfs)\n"))
+fault("c18-addrepeat-asks-after-push", "C18", "R18e", (TALES, "\t\tself.setLocal (name, initialValue)\n", "\t\tself.setLocal (name, var.getCurrentValue())\n"))
+fault("c04-request-line-bounded", "C04", "R04h", (SERVER, "        request = self.rfile.readline().decode(errors=\"surrogateescape\")", "        request = self.rfile.readline(1026).decode(errors=\"surrogateescape\")"))
+fault("c05-gemini-url-length-refused", "C05", "R05i", (GEM, "        selector = url_parts.path\n", "        if len(self.request.strip()) > 1024:\n            self.write_status(59, \"Bad request\")\n            return\n        selector = url_parts.path\n"))
+twin("c05-twin-gemini-empty-request", "C05", (GEM, "        selector = url_parts.path\n", "        if len(self.request.strip()) == 0:\n            self.write_status(59, \"Bad request\")\n            return\n        selector = url_parts.path\n"))
+fault("c06-gopher-url-slash-model", "C06", "R06j", (GE, '            "{}{}".format(self.gettype("0"), self.getselector()), errors="surrogateescape"', '            "{}/{}".format(self.gettype("0"), self.getselector().lstrip("/")), errors="surrogateescape"'))
+fault("c14-service-actions-no-super", "C14", "R14d", (SERVER, "    def server_bind(self) -> None:", "    def service_actions(self) -> None:\n        self.ticks = getattr(self, \"ticks\", 0) + 1\n\n    def server_bind(self) -> None:"))
+twin("c14-twin-service-actions-super", "C14", (SERVER, "    def server_bind(self) -> None:", "    def service_actions(self) -> None:\n        self.ticks = getattr(self, \"ticks\", 0) + 1\n        super().service_actions()\n\n    def server_bind(self) -> None:"))
+fault("c20-gophermap-file-held-by-generator", "C20", "R20c", (GMAP, "        with self.vfs.open(selector, \"rb\") as rfile:\n", "        self.entries = self._lazy(self.vfs.open(selector, \"rb\"))\n        with self.vfs.open(selector, \"rb\") as rfile:\n"),
+      (GMAP, "    def isdir(self):\n        return True\n", "    def isdir(self):\n        return True\n\n    def _lazy(self, rfile):\n        with rfile:\n            for raw in rfile:\n                yield raw\n"))
